@@ -9,6 +9,7 @@ import (
 
 	"verifmon/internal/core"
 	"verifmon/internal/gen"
+	"verifmon/internal/obs"
 )
 
 var c19Zones = []string{"UTC", "America/New_York", "Europe/London", "Asia/Kolkata", "Australia/Lord_Howe", "America/Sao_Paulo", "Africa/Cairo", "Pacific/Apia", "Asia/Tehran",
@@ -32,7 +33,7 @@ var c19 = core.Register(&core.Prop{
 	},
 	Floors: func(c map[string]int64, tier string) []string {
 		var out []string
-		for _, k := range []string{"date_cases", "date_carried", "field_cases", "adddate_cases", "usetimezone_cases", "usetimezone_unknown", "timeformat_cases", "now_cases", "today_cases", "records_with_builtin_named_columns", "local_zone_switches", "near_transition", "millsecond_beyond_2262", "negated_extractor_cases", "fields_through_local_cases"} {
+		for _, k := range []string{"date_cases", "date_carried", "field_cases", "adddate_cases", "usetimezone_cases", "usetimezone_unknown", "timeformat_cases", "now_cases", "today_cases", "records_with_builtin_named_columns", "local_zone_switches", "virtual_clock_cases", "near_transition", "millsecond_beyond_2262", "negated_extractor_cases", "fields_through_local_cases"} {
 			if c[k] == 0 {
 				out = append(out, "coverage floor: no "+k)
 			}
@@ -248,7 +249,28 @@ func refFormat(c civil, offset int64, layout string) string {
 	return sb.String()
 }
 
+// now / toDay cases that carry an instant are evaluated under a virtual wall clock set to that instant (the harness
+// binary's time.Now is hooked through a build overlay, tools/mkoverlay.py): the bracket [t0, t1] of the call is then
+// a few microseconds around ANY chosen moment - transitions, local midnights, the date line - instead of "whenever
+// the check happened to run".
+var c19InVirtual bool
+
 var c19Check = core.Mon(c19, "dates", func(w *core.W, c *DateCase) {
+	if (c.Fn == "now" || c.Fn == "toDay") && (c.Unix != 0 || c.Nsec != 0) && !c19InVirtual {
+		if !obs.ClockAvailable() {
+			w.Skip("no-clock-overlay")
+			return
+		}
+		c19InVirtual = true
+		defer func() { c19InVirtual = false }()
+		w.Count("virtual_clock_cases")
+		obs.WithClock(time.Unix(c.Unix, c.Nsec), func() { c19Body(w, c) })
+		return
+	}
+	c19Body(w, c)
+})
+
+func c19Body(w *core.W, c *DateCase) {
 	if c.TZ != "" && os.Getenv("TZ") != c.TZ {
 		w.Skip("replayed-under-another-TZ")
 		return
@@ -477,7 +499,7 @@ var c19Check = core.Mon(c19, "dates", func(w *core.W, c *DateCase) {
 			bad("today", "local midnight of the current day", got.Format(time.RFC3339), "toDay()")
 		}
 	}
-})
+}
 
 func checkFields(w *core.W, c *DateCase, bad func(string, interface{}, interface{}, string), t time.Time, data map[string]interface{}, label string) {
 	_, off := t.Zone()
@@ -630,6 +652,34 @@ func runC19(w *core.W) {
 	for i := 0; i < 50; i++ {
 		run(&DateCase{Fn: "now"})
 		run(&DateCase{Fn: "toDay"})
+	}
+	// now / toDay at chosen instants (virtual clock): around every transition of the local zone, around local midnights,
+	// year ends, leap days and random moments between 1900 and 2200
+	var moments []int64
+	for _, u := range trans {
+		moments = append(moments, u-1, u, u+1, u-3600, u+3599, u+86400)
+	}
+	for i := 0; i < w.Pick(400, 6000); i++ {
+		u := r.Int63n(9467000000) - 2208988800 // 1900 .. 2200
+		moments = append(moments, u)
+		// the local midnight just before / after that moment
+		lt := time.Unix(u, 0).In(time.Local)
+		mid := time.Date(lt.Year(), lt.Month(), lt.Day(), 0, 0, 0, 0, time.Local).Unix()
+		moments = append(moments, mid-1, mid, mid+1, mid+86399)
+	}
+	for _, y := range []int{1970, 1999, 2000, 2024, 2038, 2100} {
+		moments = append(moments, time.Date(y, 12, 31, 23, 59, 59, 0, time.UTC).Unix(), time.Date(y, 2, 29, 12, 0, 0, 0, time.UTC).Unix(), time.Date(y, 1, 1, 0, 0, 0, 0, time.Local).Unix()-1)
+	}
+	for i, u := range moments {
+		if u == 0 {
+			u = 1
+		}
+		ns := int64(0)
+		if i%3 == 0 {
+			ns = 999999000
+		}
+		run(&DateCase{Fn: "now", Unix: u, Nsec: ns})
+		run(&DateCase{Fn: "toDay", Unix: u, Nsec: ns})
 	}
 	// the host applies a configured zone after start-up (time.Local = loc): "local" follows it from then on
 	home := time.Local
